@@ -21,4 +21,4 @@ H("G-CHUNK", "chunk_type_codes", "C14 C18", "every u8", "ChunkType <-> u8 biject
 H("G-CHUNK", "chunk_compressed_change_checksum_both_levels", "C14", "any 256-bit hash of the inflated change, any stored inner and outer checksum; unwind 18",
   "Chunk::checksum_valid(CompressedChange) <=> outer checksum == inner checksum AND inner checksum == hash[0..4]")
 H("G-CHUNK", "chunk_header_new_any_data_len", "C12 C13 C18", "ANY data length 0..=4 MiB (every LEB128 width boundary up to 3 -> 4 bytes), any chunk type; SHA-256 stubbed, data never read; unwind 7",
-  "Header::new announces header length = 9 + LEB128 length of the data length, data_bytes() starts right after it, Header::write emits exactly that many bytes", timeout=600)
+  "Header::new announces header length = 9 + LEB128 length of the data length, data_bytes() starts right after it, Header::write emits exactly that many bytes", timeout=600, native_grid="replay_grid_chunk_header_new", grid_first=True)
